@@ -6,6 +6,7 @@ import CharsetProof.Model.Concrete
 import CharsetProof.Model.SortLarge
 import CharsetProof.Model.DecodeHelper
 import CharsetProof.Model.Cli
+import CharsetProof.Model.Cd
 namespace Charset.Driver
 open Charset
 
@@ -304,6 +305,15 @@ def handle (line : String) : String :=
           | .ok (.array es) => "ok array " ++ ",".intercalate (es.map showEntry)
         showR ++ " ## " ++ showFs
     | _ => "bad-op"
+  | "coh" :: thr :: layers =>
+    -- coherence_ratio's loop on explicit layers: each layer = Lang=scorebits,... in candidate order ("-" = none)
+    match f32OfBits thr, layers.mapM parseCoh with
+    | some thr, some ls =>
+      let arr := ls.toArray
+      let cands : Nat → List Name := fun i => (arr[i]?.getD []).map (·.1)
+      let score : Nat → Name → F32 := fun i l => ((arr[i]?.getD []).find? (fun p => p.1 == l)).map (·.2) |>.getD Fl.zero
+      "ok " ++ showCoh (coherenceRatioModel thr ls.length score cands)
+    | _, _ => "bad-op"
   | ["codecid", n] =>
     match parseXNames n with
     | some [n] => (match lookupName Gen.labelCodec (normLabel n) with
